@@ -53,6 +53,12 @@ func monitorOf(props ...string) explore.JudgeFn {
 // snapshotCheck is the common body of the per-snapshot properties.
 func snapshotCheck(prop string, mod func(*gridOpts), extraRule string) int {
 	grids := tierGrids()
+	if prop == "C04" {
+		// the "never for a set that is being deleted" clause: the shallow grid again with the flag raised
+		d := grids[0]
+		d.Deleting = true
+		grids = append(grids, d)
+	}
 	desc := ""
 	for i := range grids {
 		if mod != nil {
